@@ -8,18 +8,36 @@ CHECKS = {
    note="trusted: Coq kernel+vm_compute, correspondence harness; modelled-not-verified: pickle, tokenizer, file system",
    technique="Coq proof (list/string induction) + vm_compute correspondence with core/util.py", design="6/C04"),
 }
+EXEC_NOTE = ("trusted: Coq kernel+vm_compute; hand-written model Exec/Model.v of core/system.py, cells.py, model.py (formula vocabulary: ints/None, calls, "
+             "references by name/attribute, conditional, try/except, raising expressions) tied by the correspondence harness; CPython, networkx modelled not verified")
+CHECKS.update({
+ "C01": dict(text="Coq refinement theorem: the caching executor (call stack, cache, graphs) returns exactly the value of the uncached specification evaluator, "
+                  "for every model of the formula vocabulary, every argument tuple and every order of requests; held elements are never re-executed; bound keys are canonical. "
+                  "Model tied to the code on every run by vm_compute correspondence over generated histories.",
+             note=EXEC_NOTE, technique="Coq proof (mutual fuel induction, simulation of executor by spec evaluator) + vm_compute correspondence", design="6/C01"),
+ "C05": dict(text="Coq theorem: for every failure position and error kind the cache invariant is preserved, the call stack restored, held values and definitions unchanged, the error recorded, "
+                  "and later evaluations return the specification value (retry). Clause 'failing chain holds no value' is covered by correspondence+oracle only (partial).",
+             note=EXEC_NOTE + "; C-stack crash clause outside any model", technique="Coq proof (failure branch of the executor simulation) + vm_compute correspondence", design="6/C05"),
+})
+EXPLORE = {
+ "C02": "differential oracle (live model vs model that replayed only the edits) + correspondence of Exec/Model.v; invariant-preservation theorems for edits under construction",
+ "C06": "graph-descendant oracle on every value edit + correspondence of Exec/Model.v; theorems under construction",
+ "C08": "reference-interpreter oracle for preds/graph=cache/acyclicity + correspondence of Exec/Model.v; theorems under construction",
+ "C09": "two-flag-assignment differential + correspondence of Exec/Model.v; theorems under construction",
+ "C17": "executing-chain oracle (reference interpreter with line numbers) + correspondence of Exec/Model.v; theorems under construction",
+}
 PENDING = {}
 for i in range(1, 21):
     p = "C%02d" % i
-    if p not in CHECKS:
+    if p not in CHECKS and p not in EXPLORE:
         PENDING[p] = "model and theorems for this property are not built yet in this revision of /verif (see DESIGN.md section 10 build order)"
 man = {
  "version": 1,
- "setup_cmd": "cd /verif/coq && ./mk.sh",
+ "setup_cmd": "cd /verif && /venv/bin/python -B harness/setup.py",
  "hooks": {"guard": "MODELX_VERIF", "enable": "no source hooks are needed; drivers import /repo with PYTHONPATH=/repo and MODELX_VERIF=1",
            "baseline_off_cmd": "cd /repo && /venv/bin/python -m pytest -ra -q -p no:cacheprovider --timeout=900 --continue-on-collection-errors",
            "source_commits": [], "add_only": True},
- "engines": [{"name": "coq-proof+correspondence", "path": "/verif/check", "serves_properties": sorted(CHECKS),
+ "engines": [{"name": "coq-proof+correspondence", "path": "/verif/check", "serves_properties": sorted(list(CHECKS) + list(EXPLORE)),
               "kind_free_text": "Coq 8.16.1 development (coq/theories) proving the properties over hand-written Gallina models; "
                                 "harness/ drives the real modelx and compares with the model under vm_compute"}],
  "checks": [
@@ -27,7 +45,12 @@ man = {
     "evidence_file": "/verif/evidence/%s.json" % p, "replay_cmd_template": "./check %s --replay {path}" % p,
     "engine": "coq-proof+correspondence",
     "level_claimed": {"category": "proof", "text": c["text"], "design_ref": c["design"]},
-    "level_note": c["note"], "technique": c["technique"]} for p, c in sorted(CHECKS.items())],
+    "level_note": c["note"], "technique": c["technique"]} for p, c in sorted(CHECKS.items())] + [
+   {"property_id": p, "quick_cmd": "./check %s --tier quick" % p, "thorough_cmd": "./check %s --tier thorough" % p,
+    "evidence_file": "/verif/evidence/%s.json" % p, "replay_cmd_template": "./check %s --replay {path}" % p,
+    "engine": "coq-proof+correspondence",
+    "level_claimed": {"category": "exploration", "text": t, "design_ref": "6/" + p},
+    "level_note": EXEC_NOTE, "technique": "correspondence of a Gallina model with the implementation + property oracle (proof pending)"} for p, t in sorted(EXPLORE.items())],
  "not_applicable": [{"property_id": p, "reason": r} for p, r in sorted(PENDING.items())],
  "notes": "See DESIGN.md. KNOWN_FINDINGS.txt lists recorded defects of the pinned tree.",
 }
